@@ -1151,7 +1151,15 @@ def fixup_strided_conv(op: Operation, arch, nng):
     # Compute the depth of the IFM once the strided Conv2D is optimised
     post_opt_ifm_depth = ifm_shape.depth * resize_factor
 
-    if stride_x > 1 and (post_opt_ifm_depth <= 8 or stride_x > 3) and resize_factor != 1 and weight_tensor is not None:
+    dilation_x, _ = op.get_kernel_dilation()
+    if (
+        stride_x > 1
+        and (post_opt_ifm_depth <= 8 or stride_x > 3)
+        and resize_factor != 1
+        and weight_tensor is not None
+        # the reshaping below folds adjacent filter columns into the depth, which is only valid for an undilated filter
+        and (dilation_x == 1 or stride_x > 3)
+    ):
         k_w, _ = op.get_kernel_size()
         weight_shape = weight_tensor.shape
 
